@@ -14,18 +14,20 @@ are run against that variant. For each mutant the runner records
   (b) exit status, violation signatures and wall time of `./check <property> --tier quick`,
   (c) whether `./check <property> --replay <first replay file>` reproduces (exit 1).
 
-Where the checks run. `./check` keeps its binaries, work files, evidence and replays under
-its own directory (ROOT = directory of the script) and the names do not depend on
-VERIF_OVERLAY: .build/bin/<harness>[.sched].test, .build/out/<ID>-*, evidence/<ID>.json,
-replays/<ID>-*.json. A variant build therefore REPLACES the binary an unrelated
-`./check` running at the same time (same harness, e.g. clients.sched.test serves C03, C04,
-C06, C07, C08, C12) is about to start for its next work unit - and the other way round.
-To keep the self-test from contaminating real runs (and from being contaminated), the
-default is to run the checks from a private mirror of the framework,
-/verif/.build/selftest/_root (copies of check, engine/, harness/, go.mod, known_findings.json
-taken when run.py starts). `--in-place` runs `./check` in /verif itself as a user would; then
-the evidence file and the replay files of the property are copied aside before each check and
-put back / deleted right after it.
+Where the checks run. `./check` keeps evidence and replays under its own directory (ROOT =
+directory of the script) under names that do not depend on VERIF_OVERLAY: evidence/<ID>.json,
+replays/<ID>-*.json; until framework commit bec2417 this was also true of the test binaries
+(.build/bin/<harness>[.sched].test, shared by all properties of a harness, e.g. clients.sched.test
+for C03 C04 C06 C07 C08 C12), so that a variant build REPLACED the binary an unrelated `./check`
+running at the same time was about to start for its next work unit - and the other way round
+(since bec2417 every run has private binaries under .build/run-<pid>/). To keep the self-test from
+contaminating real runs (and from being contaminated), the default is to run the checks from a
+private mirror of the framework, /verif/.build/selftest/_root (copies of check, engine/, harness/,
+go.mod, known_findings.json taken when run.py starts; evidence and replays of the mutants stay
+there). `--in-place` runs `./check` in /verif itself as a user would; then the evidence file and the
+replay files of the property are copied aside before each check and put back / deleted right after
+it (a real run of the same property that finishes inside that window would still lose its
+evidence file to the restore - one more reason for the mirror).
 
 Baseline. Before the first mutant of a property, the unmodified tree is checked once in the same
 place (`./check <ID>` without overlay); exit status and signatures are stored under "baselines"
@@ -287,10 +289,15 @@ def write_md(results, meta, baselines):
         L.append("| %s | %d | %d | %s | %d |" % (pid, len(rs), sum(1 for r in rs if r["detected"]),
                  ", ".join(r["id"] for r in rs if not r["detected"]) or "-",
                  sum(1 for r in rs if r["detected"] and r.get("repo_tests", {}).get("pass"))))
-    L += ["", "## Baselines (unmodified tree, same place, same tier)", "", "| property | check exit | violations | known findings reported | wall s |", "|---|---|---|---|---|"]
-    for pid in sorted(baselines):
-        b = baselines[pid]
-        L.append("| %s | %s | %s | %d | %s |" % (pid, b["check_exit"], "<br>".join("`%s`" % x for x in b["signatures"][:3]) or "-", b["known_findings_reported"], b["wall_s"]))
+    L += ["", "## Baselines (unmodified tree, same place, same tier, run before the first mutant of a property)", "",
+          "| property | baseline exit seen by its mutants | newest stored baseline: exit | violations | known findings reported | wall s |", "|---|---|---|---|---|---|"]
+    for pid in sorted({r["property"] for r in run_}):
+        seen = sorted({str(r.get("baseline_exit")) for r in run_ if r["property"] == pid})
+        b = baselines.get(pid)
+        if b:
+            L.append("| %s | %s | %s | %s | %d | %s |" % (pid, ", ".join(seen), b["check_exit"], "<br>".join("`%s`" % x for x in b["signatures"][:3]) or "-", b["known_findings_reported"], b["wall_s"]))
+        else:
+            L.append("| %s | %s | (not stored) | | | |" % (pid, ", ".join(seen)))
     L += ["", "## Mutants", "",
           "| mutant | property | what | repo tests pass? | check exit | detected? | signatures (first 3 of n) | replay reproduces? | wall s |",
           "|---|---|---|---|---|---|---|---|---|"]
@@ -362,6 +369,9 @@ def main():
     only = [p for p in a.only.split(",") if p]
     sel = [m for m in mutants if not only or any(m["id"].startswith(p) for p in only)]
     root = VERIF if (a.in_place or a.repo_tests_only) else make_mirror()
+    vhead = subprocess.run(["git", "-C", VERIF, "log", "-1", "--format=%h %s"], stdout=subprocess.PIPE, text=True).stdout.strip()
+    if subprocess.run(["git", "-C", VERIF, "status", "--porcelain", "--", "harness", "engine", "check"], stdout=subprocess.PIPE, text=True).stdout.strip():
+        vhead += " (+ uncommitted changes)"
     res_path = os.path.join(HERE, "results.json")
     old = {}
     old_meta = {}
@@ -373,12 +383,13 @@ def main():
         except Exception:
             pass
     key = tree_key() + ("-inplace" if a.in_place else "") + "-" + a.tier
-    baselines = {}
+    baselines, baselines_old = {}, {}
+    try:
+        baselines_old = json.load(open(res_path)).get("baselines", {})  # kept for the report only
+    except Exception:
+        pass
     if not a.rebaseline:
-        try:
-            baselines = {p: b for p, b in json.load(open(res_path)).get("baselines", {}).items() if b.get("key") == key}
-        except Exception:
-            pass
+        baselines = {p: b for p, b in baselines_old.items() if b.get("key") == key}
     new = {}
     for i, m in enumerate(sel):
         r = {k: m[k] for k in ("id", "property", "file", "what", "needs")}
@@ -426,19 +437,18 @@ def main():
         new[m["id"]] = r
         # keep partial results on disk
         merged = [new.get(x["id"]) or old.get(x["id"]) for x in mutants]
-        json.dump({"meta": old_meta, "baselines": baselines, "results": [x for x in merged if x]}, open(res_path, "w"), indent=1)
+        json.dump({"meta": old_meta, "baselines": dict(baselines_old, **baselines), "results": [x for x in merged if x]}, open(res_path, "w"), indent=1)
     wall = time.time() - t_all
     head = subprocess.run(["git", "-C", REPO, "log", "-1", "--format=%h %s"], stdout=subprocess.PIPE, text=True).stdout.strip()
     meta = dict(old_meta)
-    vhead = subprocess.run(["git", "-C", VERIF, "log", "-1", "--format=%h %s"], stdout=subprocess.PIPE, text=True).stdout.strip()
     meta.update({"when": time.strftime("%Y-%m-%d %H:%M:%S"), "repo_head": head, "verif_head": vhead, "tier": a.tier,
                  "where": "in /verif (--in-place)" if a.in_place else "in a private mirror of the framework (.build/selftest/_root)"})
     if not only and not a.skip_repo_tests and not a.repo_tests_only:
         meta["full_run_wall"] = "%.0f s (%.1f min)" % (wall, wall / 60)
     merged = [new.get(x["id"]) or old.get(x["id"]) for x in mutants]
     merged = [x for x in merged if x]
-    json.dump({"meta": meta, "baselines": baselines, "results": merged}, open(res_path, "w"), indent=1)
-    write_md(merged, meta, baselines)
+    json.dump({"meta": meta, "baselines": dict(baselines_old, **baselines), "results": merged}, open(res_path, "w"), indent=1)
+    write_md(merged, meta, dict(baselines_old, **baselines))
     ran = [r for r in new.values() if not r["pending"] and r["status"] == "ok" and "check_exit" in r]
     missed = [r["id"] for r in ran if not r.get("detected")]
     log("ran %d mutants in %.0fs: %d detected, missed: %s" % (len(ran), wall, len(ran) - len(missed), missed or "none"))
